@@ -492,6 +492,8 @@ def bl5(ctx, R):
                 inner_ = collect(v_, lambda x: is_enc(x, sparam))
                 if inner_ and collect(v_, lambda x: isinstance(x, tuple) and len(x) >= 2 and x[0] == "call" and x[1] in ("accumulate", "itertools.accumulate")):
                     kinds.insert(0, ("offset", ("call", "accumulate", (inner_[0],), ())))
+                elif inner_ and isinstance(v_, tuple) and v_ and v_[0] == "method" and v_[1] == "join" and v_[3] and is_enc(v_[3][0], sparam):
+                    kinds.append(("bytes", inner_[0]))          # all encoded values written at once: b''.join(ENC)
             pre2.append(st)
     from .sem import module_region
     wregion = module_region(prog, wsv)
@@ -501,6 +503,9 @@ def bl5(ctx, R):
     elif any(k == "?" for k, _ in kinds):
         R.unrecognised("writer.write_string_values::offsets then bytes over the encoded strings", wsv.where(),
                        "a write of write_string_values is neither `<loop variable>` nor `Uint32(<offset>).bytes`: %s" % [(k, show(alpha(it))[:60]) for k, it in kinds])
+    elif sorted(set(k for k, _ in kinds)) in (["bytes"], ["offset"]):
+        R.unrecognised("writer.write_string_values::offsets then bytes over the encoded strings", wsv.where(),
+                       "only the %s write of write_string_values was recognised: %s" % (kinds[0][0], [(k, show(alpha(it))[:60]) for k, it in kinds]))
     else:
         R.check(sorted(k for k, _ in kinds) == ["bytes", "offset"] and all(over_enc(it) for _, it in kinds), "writer.write_string_values::offsets then bytes over the encoded strings", wsv.where(),
                 "one Uint32 end offset and the encoded bytes per value, over the same encoded list", "string data is written as %s" % [(k, show(alpha(it))[:60]) for k, it in kinds])
